@@ -1,0 +1,32 @@
+//go:build verif
+
+package tensor
+
+// Read-only accessors for the external verification harness (/verif). Built only with -tags verif.
+
+// VerifOld reports the pending-transpose backup AP: whether it is zero, and its shape and strides.
+func VerifOld(t *Dense) (isZero bool, shape []int, strides []int) {
+	return t.old.IsZero(), append([]int(nil), t.old.shape...), append([]int(nil), t.old.strides...)
+}
+
+// VerifTransposeWith returns a copy of the axes of the pending transpose (nil if none).
+func VerifTransposeWith(t *Dense) []int {
+	if t.transposeWith == nil {
+		return nil
+	}
+	return append([]int{}, t.transposeWith...)
+}
+
+// VerifWindow returns the address, length and capacity (in elements) of the storage window.
+func VerifWindow(t *Dense) (addr uintptr, length, capacity int) {
+	if len(t.array.Header.Raw) == 0 {
+		return 0, 0, t.array.Cap()
+	}
+	return t.array.Uintptr(), t.array.Len(), t.array.Cap()
+}
+
+// VerifMaskInfo returns the mask slice as held (not a copy) and the soft flag.
+func VerifMaskInfo(t *Dense) (mask []bool, soft bool) { return t.mask, t.maskIsSoft }
+
+// VerifAPFin reports the lock flag of the access pattern.
+func VerifAPFin(t *Dense) bool { return t.AP.fin }
